@@ -2,7 +2,7 @@
    both generic wire values (Base/Sx.v).  A request is (op arg ...). *)
 From Coq Require Import ZArith List Bool.
 From Mistletoe Require Import Base.Sx Base.PyStr Model.SpanTokenizer Model.Tree Model.TreeWire
-  Model.HtmlRenderer Spec.HtmlSpec Model.LatexRenderer Spec.LatexSpec.
+  Model.HtmlRenderer Spec.HtmlSpec Model.LatexRenderer Spec.LatexSpec Model.Contrib.
 Import ListNotations.
 Local Open Scope Z_scope.
 
@@ -53,6 +53,30 @@ Definition op_latex_str (req : sx) : sx :=
   let s := str_of_sx (sx_nth req 2) in
   sx_of_str (match z_of_sx (sx_nth req 1) with 0 => latex_escape s | _ => latex_escape_url s end).
 
+(* ---- X-contrib : (18 kind dq sq tree ((lang code result) ...)) ---- *)
+Definition rkind_of (z : Z) : rkind :=
+  match z with 1 => KToc | 2 => KWiki | 3 => KMathJax | 4 => KPygments | _ => KHtml end.
+Fixpoint hl_lookup (tbl : list sx) (lang code : str) : str :=
+  match tbl with
+  | [] => []
+  | e :: r => if str_eqb (str_of_sx (sx_nth e 0)) lang && str_eqb (str_of_sx (sx_nth e 1)) code
+              then str_of_sx (sx_nth e 2) else hl_lookup r lang code
+  end.
+Definition op_contrib (req : sx) : sx :=
+  let hl := hl_lookup (l_of_sx (sx_nth req 5)) in
+  sx_of_str (render_contrib hl (rkind_of (z_of_sx (sx_nth req 1)))
+                            (mkHopts (bool_of_sx (sx_nth req 2)) (bool_of_sx (sx_nth req 3)))
+                            (tok_of_sx (sx_nth req 4))).
+
+(* ---- X-toc : (19 depth omit dq sq tree) -> ((level content) ...) ---- *)
+Definition op_toc (req : sx) : sx :=
+  let cfg := mkTocCfg (z_of_sx (sx_nth req 1)) (bool_of_sx (sx_nth req 2)) in
+  let o := mkHopts (bool_of_sx (sx_nth req 3)) (bool_of_sx (sx_nth req 4)) in
+  let hs := toc_headings cfg [] o (tok_of_sx (sx_nth req 5)) in
+  SxL [SxL (map (fun e => SxL [SxZ (fst e); sx_of_str (snd e)]) hs);
+       SxL (map sx_of_str (toc_lines hs))].
+Definition op_strip_tags (req : sx) : sx := sx_of_str (strip_tags (str_of_sx (sx_nth req 1))).
+
 Definition dispatch (req : sx) : sx :=
   match z_of_sx (sx_nth req 0) with
   | 16 => op_tokenize req
@@ -60,6 +84,9 @@ Definition dispatch (req : sx) : sx :=
   | 80 => op_str req
   | 81 => op_check_html req
   | 17 => op_latex req
+  | 18 => op_contrib req
+  | 19 => op_toc req
+  | 190 => op_strip_tags req
   | 170 => op_latex_str req
   | 171 => op_check_latex req
   | _ => SxL [SxZ (-1)]
